@@ -145,7 +145,14 @@ def verify_function(repo, contracts, c, registry=None, scope=None, opts=None):
                 exc = r
             vtag = "" if variant is None else "[%s]" % (variant,)
             if exc is None:
-                for name, g in named(c.ensures(E, a, res, old)).items():
+                try:
+                    post = named(c.ensures(E, a, res, old))
+                except Raised as r2:
+                    # the postcondition itself runs real code (e.g. get_params after set_params): an exception there
+                    # is a failed clause, not an engine error
+                    E.cur_func = func
+                    post = {"postcondition_code_raises_" + r2.cls: z3.BoolVal(False)}
+                for name, g in post.items():
                     E.oblige("%s.%s.post.%s" % (c.prop, qn, name), g, "post")
                 for name, fn in c.canaries.items():
                     E.oblige("%s.%s.canary.%s" % (c.prop, qn, name), fn(E, a, res, old), "canary", canary=True)
